@@ -8,7 +8,7 @@
 from pymbolic.mapper.stringifier import (
     PREC_UNARY, PREC_LOGICAL_AND, PREC_LOGICAL_OR, PREC_COMPARISON, PREC_NONE
 )
-from pymbolic.primitives import FloorDiv, Remainder
+from pymbolic.primitives import FloorDiv, Remainder, Product, Quotient
 
 from loki.backend.pprint import Stringifier
 from loki.backend.style import FortranStyle
@@ -101,7 +101,7 @@ class FCodeMapper(LokiStringifyMapper):
     # round-off deviations for agressively optimising compilers. Since
     # we explicitly handle bracketing in our expression nodes, we can
     # drop this here... famous last words!
-    multiplicative_primitives = (FloorDiv, Remainder)
+    multiplicative_primitives = (FloorDiv, Remainder, Product, Quotient)
 
 
 class FortranCodegen(Stringifier):
